@@ -5,6 +5,7 @@ import (
 	"time"
 
 	hg "github.com/mosaicnetworks/babble/src/hashgraph"
+	bnet "github.com/mosaicnetworks/babble/src/net"
 )
 
 // Histories with Byzantine *content* (never equivocation): C09 (hostile block
@@ -220,6 +221,76 @@ func injectForeignSignatures(nw *Network, stranger *SimKey) {
 	})
 }
 
+// junkSignatureRelay returns a relay action that adds entries to the signature
+// map of a fast-forward response's block (never touching the entries that are
+// there, so a response that satisfied the acceptance rule still does): valid
+// signatures by a stranger and by identities outside the block's validator set,
+// well-formed and malformed junk under stranger keys, under lax spellings of a
+// member's key and under the keys of members that have not signed.
+func junkSignatureRelay(nw *Network, stranger *SimKey) func(resp *bnet.FastForwardResponse) {
+	return func(resp *bnet.FastForwardResponse) {
+		rng := nw.Rng
+		sigs := map[string]string{}
+		for k, v := range resp.Block.Signatures {
+			sigs[k] = v
+		}
+		members := map[string]bool{}
+		for _, p := range resp.Frame.Peers {
+			if p != nil {
+				members[p.PubKeyString()] = true
+			}
+		}
+		body := resp.Block.Body
+		nb := &hg.Block{Body: body}
+		added := 0
+		add := func(k, v string) {
+			if _, there := sigs[k]; !there {
+				sigs[k] = v
+				added++
+			}
+		}
+		for _, kind := range rng.Perm(6)[:1+rng.Intn(3)] {
+			switch kind {
+			case 0: // a valid signature by a stranger
+				if bs, err := nb.Sign(stranger.K); err == nil {
+					add(pubHex(stranger.K), bs.Signature)
+				}
+			case 1: // a valid signature by an identity of the network that is not in the block's set
+				for _, x := range nw.Nodes {
+					if !members[x.PubHex] {
+						if bs, err := nb.Sign(x.Key); err == nil {
+							add(x.PubHex, bs.Signature)
+						}
+						break
+					}
+				}
+			case 2: // junk under a stranger's key
+				add(pubHex(stranger.K), []string{"1|1", "zz|zz", "", "|"}[rng.Intn(4)])
+			case 3: // junk under a lax spelling of a member's key
+				for k := range members {
+					add(k+"ZZ", "zz|zz")
+					break
+				}
+			case 4: // junk under the key of a member that has not signed
+				for k := range members {
+					if _, signed := sigs[k]; !signed {
+						add(k, fmt.Sprintf("%x|%x", rng.Int63(), rng.Int63()))
+						break
+					}
+				}
+			case 5: // not a key at all
+				add("0X04DEADBEEF", "1|1")
+			}
+		}
+		if added > 0 {
+			resp.Block.Signatures = sigs
+			nw.Res.count("ff_responses_with_added_signature_entries", 1)
+			nw.Res.count("ff_signature_entries_added_by_the_relay", int64(added))
+			nw.ffJunkOffered = true
+		}
+	}
+}
+
 func init() {
 	register(&PropDef{
 		ID: "C09", Level: "exploration", Engine: "nodesim+puppet",
@@ -242,11 +313,28 @@ func init() {
 				// unreachable for a while, twice
 				cs = append(cs, CaseSpec{Kind: "sockapp", P: map[string]int64{"n": int64(1 + j%4), "steps": int64(260 + 40*(j%4))}, S: map[string]string{"shape": "uniform"}})
 			}
+			for j := 0; j < k; j++ {
+				// validators that lose their data and reset from a peer's anchor while
+				// the relay adds entries to the signature map of the (sufficiently
+				// signed, otherwise untouched) anchor block: what the node then records
+				// for that block is still bound by C09
+				cs = append(cs, CaseSpec{Kind: "ffjunk", P: map[string]int64{"n": int64(4 + j%3), "steps": int64(380 + 40*(j%4)), "ffresets": int64(2 + j%2), "ffsingle": int64(j % 2), "badger": int64((j / 2) % 2), "cache": 3000, "joins": int64(j % 2)}, S: map[string]string{"shape": []string{"uniform", "lag"}[j%2]}})
+			}
 			return cs
 		},
 		Run: func(cs CaseSpec) *CaseResult {
 			if cs.Kind == "sockapp" {
 				return runSockApp(cs)
+			}
+			if cs.Kind == "ffjunk" {
+				res := runHistory(cs, func(nw *Network) []Monitor {
+					nw.FFTamper = junkSignatureRelay(nw, &SimKey{detKey(cs.Seed, "ffjunk-stranger", cs.Index)})
+					return []Monitor{NewMonSignatures()}
+				}, nil)
+				if res.Counters["ff_responses_with_added_signature_entries_adopted"] < 1 {
+					res.Digests = nil
+				}
+				return res
 			}
 			if cs.Kind == "growth" {
 				res := runHistory(cs, func(nw *Network) []Monitor { return []Monitor{NewMonSignatures()} }, nil)
